@@ -16,12 +16,13 @@ var c02Alpha = alphaOpt{Tables: []string{"t1", "t2"}, Inserts: []int{1, 9}, Upda
 
 func runC02(env *lib.Env, rep *lib.Report) {
 	d, bound := 3, 1
-	seeds := []string{"empty", "t1x8", "t1x8+t2t3", "t1x8+t2t3-crashed", "interleaved", "t1x12+t2x1"}
+	seeds := []string{"empty", "t1x8", "t1x8+t2t3", "t1x8+t2t3-crashed", "interleaved", "t1x12+t2x1", "t1-nulls-big"}
 	alpha := c02Alpha
 	alpha.FewDeletes = true
 	if env.Thorough() {
 		d, bound = 4, 2
 		alpha = c02Alpha
+		alpha.NullInsert, alpha.BigInsert = true, true
 		seeds = append(seeds, "t1x8-upper-deleted", "t1x8-crashed", "t1x30", "catalog-split")
 	}
 	var cfgs []histCfg
